@@ -15,10 +15,12 @@ pub fn canon(v: Value) -> Value {
             Value::Array(ys)
         }
         Value::Object(m) => {
+            // sort explicitly: with serde_json's preserve_order feature (which another crate in the
+            // build may switch on) a Map keeps insertion order, i.e. the HashMap's iteration order
+            let mut entries: Vec<(String, Value)> = m.into_iter().map(|(k, x)| (k, canon(x))).collect();
+            entries.sort_by(|a, b| a.0.cmp(&b.0));
             let mut out = serde_json::Map::new();
-            for (k, x) in m {
-                out.insert(k, canon(x));
-            }
+            for (k, x) in entries { out.insert(k, x); }
             Value::Object(out)
         }
         x => x,
